@@ -22,6 +22,8 @@ type c09Host struct {
 	N  string `json:"n"`
 	V4 string `json:"v4"` // hex, "" = nil
 	V6 string `json:"v6"`
+	// engx only: the ResolveInfo in front of the engine: 0 = nil, 1 = {IPv4, IPv6} without error, 2 = {IPv4, IPv6, Err != nil}
+	E int `json:"e"`
 }
 
 func c09IP(h string) net.IP {
